@@ -21,13 +21,13 @@ CHECKS.update({
    "Outage scripts (fault kind x number of refused redials up to 150 x backoff x reconnect/no-reconnect x error mapping x second fault right after the redial x idle-after-reconnect) with retry-tagged and untagged calls in flight and issued while the client is parked at the redial hook. Recovery is judged as bounded progress, retry-tagged calls must return their own token, untagged ones must surface an (optionally typed) error, consecutive redial hook events must be at least 0.9*minDelay apart (load cannot falsify a lower bound on sleeps), accepts at the proxy are bounded, and a no-reconnect client must never redial.",
    "Eventually = bounded progress (3*(k+2)*maxBackoff + 8 s); only the minimum spacing is asserted, not the growth curve.","2/C05"),
  "C02": ("exploration","forced completion orders + token-echo and frame-correlation monitors + porcupine linearizability of recorded histories",
-   "N concurrent callers with unique tokens; the harness holds handlers and releases them in every permutation (N<=4 quick, N<=6 thorough) and seeded random orders up to N=64, over ws and http, with seeded hook noise and targeted stalls around registration/write/lookup/delivery; each caller's outcome must be what its own handler produced and must not arrive before that handler was released; the proxy checks response ids against request ids; confused-server replies with foreign ids must be rejected; KV histories recorded at the client boundary are checked for linearizability per key with porcupine.",
+   "N concurrent callers with unique tokens; the harness holds handlers and releases them in every permutation (N<=4 quick, N<=6 thorough) and seeded random orders up to N=64, over ws and http, with seeded hook noise and targeted stalls around registration/write/lookup/delivery; each caller's outcome must be what its own handler produced and must not arrive before that handler was released; the proxy checks response ids against request ids; confused-server replies with foreign ids must be rejected; KV histories recorded at the client boundary are checked for linearizability per key with porcupine. Plus a single-stall pair enumeration on a healthy connection: the k-th firing of hook point p is parked until point q fires, for every ordered pair of 23 (point, side) pairs (thorough: all pairs x 4 occurrences, 1 840 executions; quick: a seed-rotated sample covering every point), with a strict fault-free oracle over calls (own answer, exactly-once execution, cancel delivered to exactly its handler); late reverse answers across a reconnect and calls with done contexts during an outage.",
    "Interleavings are sampled (distinct hook-order signatures reported); completion orders exhaustive only for small N.","2/C02"),
  "C06": ("exploration","context-capturing handlers + logical delivery oracle (cancel frame seen at the proxy, later probe round trip)",
    "Populations of held unary calls and open subscriptions on one or two connections (same ids on both); every non-empty cancelled subset for K+S<=4, seeded beyond; instants: pre-cancelled, after entry, racing the release, after unrelated calls, window W3 (cancel overtaken by the response); ws and http. After the cancel is logically delivered ctx.Err() must be non-nil exactly for the cancelled tokens, nil for all others, and uncancelled handlers must finish with a live context.",
    "http abort detection is bounded by the 8 s grace; schedules are sampled.","2/C06"),
  "C07": ("exploration","unique-value stream monitor + wire-order check on the proxy frame log",
-   "1..8 concurrent subscriptions on a healthy link with lengths around every internal buffer (0..5000, frame queue also shrunk to 4), five element types, four producer and three consumer behaviours incl. a stalled consumer, unary calls interleaved, seeded hook delays and window W6; received sequences must equal the sent ones exactly, channels close only after the last value, the response announcing a channel precedes its first value on the wire, no foreign values, and other streams/calls make progress while one consumer is stalled.",
+   "1..8 concurrent subscriptions on a healthy link with lengths around every internal buffer (0..5000, frame queue also shrunk to 4), five element types, four producer and three consumer behaviours incl. a stalled consumer, unary calls interleaved, seeded hook delays and window W6; received sequences must equal the sent ones exactly, channels close only after the last value, the response announcing a channel precedes its first value on the wire, no foreign values, and other streams/calls make progress while one consumer is stalled. Plus the single-stall pair enumeration of C02 judged on its streams (complete, ordered, closed; endless streams flow and close on cancel).",
    "Healthy link only; schedules sampled.","2/C07"),
  "C08": ("fault_enumeration","termination-cause enumeration through the fault proxy + prefix/closure monitor, child-process survival for double close",
    "Causes {handler close, subscription cancel, FIN/RST/BLACKHOLE at the k-th value frame x 5 byte positions, client close} x instants (before the channel-id response, after k values, values buffered behind a slow consumer) x pairwise races x windows W1 and W5; once the cause is logically established the drained channel must be closed within the grace, and what was received must be a prefix of what the handler sent; a double close kills the child and is attributed to the scenario.",
